@@ -2,6 +2,7 @@ package gen
 
 import (
 	"fmt"
+	"os"
 	"sort"
 	"strings"
 
@@ -141,6 +142,12 @@ func runGen(prop, tier string, sc *core.Scratch, ev *core.Evidence, rep *core.Re
 				rep.DriftNote(fmt.Sprintf("Registry model predicts qualifiers %v, moq chose %v (%s)", p.Finals, quals(c.Obs), c.Origin))
 			}
 		}
+		if p != nil && c.Obs.Exit == "ok" && !p.Crash && !namesMatch(p, c.Obs) {
+			drift++
+			if drift <= 3 {
+				rep.DriftNote(fmt.Sprintf("Scope model predicts parameter names %v, moq chose otherwise (%s)", p.Names, c.Origin))
+			}
+		}
 		if len(ev.Coverage["samples"].([]any)) < 4 && c.ID%37 == 1 {
 			ev.Sample(map[string]any{"origin": c.Origin, "cfg": c.Cfg, "exit": c.Obs.Exit, "imports": c.Obs.Imports, "typeErrors": c.Obs.TypeErrors})
 		}
@@ -161,6 +168,13 @@ func runGen(prop, tier string, sc *core.Scratch, ev *core.Evidence, rep *core.Re
 		if id := matchFinding(kf, prop, c, p); id != "" {
 			knownHit[id]++
 			continue
+		}
+		if os.Getenv("VERIF_DEBUG") != "" {
+			te := ""
+			if len(c.Obs.TypeErrors) > 0 {
+				te = c.Obs.TypeErrors[0]
+			}
+			fmt.Fprintf(os.Stderr, "DEBUG fail %s %s dest=%s stub=%v skip=%v resets=%v args=%v :: %s\n", prop, c.Origin, c.Cfg.Dest, c.Cfg.Stub, c.Cfg.SkipEnsure, c.Cfg.WithResets, c.Cfg.Args, firstLines(te, 1))
 		}
 		rep.Violation(prop, map[string]any{"kind": "generator case fails " + prop, "failed_predicates": fl, "case": describe(c),
 			"how": "real moq output projected with go/types, judged by spec/GenTrace.tla"})
@@ -202,6 +216,14 @@ func quals(o *Obs) []string {
 // prediction - never over the code under test.
 func matchFinding(kf *core.FindingsFile, prop string, c *Case, p *Prediction) string {
 	for _, f := range kf.Findings {
+		if c.KF != "" && f.ID == c.KF && f.Status == "open" {
+			return f.ID // a probe case built for exactly this finding
+		}
+	}
+	if c.KF != "" {
+		return ""
+	}
+	for _, f := range kf.Findings {
 		if f.Status != "open" {
 			continue
 		}
@@ -228,6 +250,12 @@ func shapeMatches(match string, c *Case, p *Prediction) bool {
 		return p != nil && p.Dup
 	case "registry:diverge":
 		return p != nil && p.Diverge
+	case "scope:nil-deref":
+		return p != nil && p.Crash
+	case "scope:name-dup":
+		return p != nil && p.NameDup
+	case "names:field-collision":
+		return p != nil && p.FieldDup
 	case "dest:explicitSame+srcTypes":
 		return c.Cfg.Dest == "explicitSame" && mentionsSrc(c)
 	}
@@ -268,4 +296,36 @@ func mentionsSrc(c *Case) bool {
 		}
 	}
 	return false
+}
+
+// namesMatch: the observed parameter names of every method are among the
+// alternatives the Scope model predicts (drift check only).
+func namesMatch(p *Prediction, o *Obs) bool {
+	for si, sn := range p.ScopeOf {
+		if si >= len(p.Names) || si >= len(p.NParams) || p.NParams[si] < 0 {
+			continue
+		}
+		dot := strings.LastIndex(sn, ".")
+		iface, method := sn[:dot], sn[dot+1:]
+		for _, m := range o.Mocks {
+			if m.Iface != iface {
+				continue
+			}
+			for _, me := range m.Methods {
+				if me.Name != method {
+					continue
+				}
+				ok := false
+				for _, alt := range p.Names[si] {
+					if len(alt) >= len(me.Params) && strings.Join(alt[:len(me.Params)], ",") == strings.Join(me.Params, ",") {
+						ok = true
+					}
+				}
+				if !ok {
+					return false
+				}
+			}
+		}
+	}
+	return true
 }
